@@ -4,7 +4,7 @@ import cxx_specs as XS
 
 PROPERTY = "C08"
 LEVEL = "proof"
-EXPLANATION = ""
+EXPLANATION = ("Proof that randomx_init_dataset splits every (start, count) request - including counts 0-3, non-multiples of 4 and ranges ending at the last item - into initialiser calls that together write exactly the requested items and nothing else (frame as ghost provenance on a real 2 GiB object), and that initDatasetItem follows specification 7.3. The compiled initialiser's machine code is outside the verifier's reach (trusted; C04-style validation of generateSuperscalarCode is not built).")
 TRUSTED = ["memcpy provenance stub in suites/C08/harness_init_dataset.c",
            "the compiled (assembly) dataset initialiser satisfies the contract of the initialiser function type (rxv_dataset_init)",
 ]
@@ -32,7 +32,7 @@ OBLIGATIONS = [
         "expect_classes": ["assertion"], "expect_min": 5,
     },
     {
-        "name": "dataset_item_equals_spec_7_3", "backend": "kissat",
+        "name": "dataset_item_equals_spec_7_3", "backend": "cvc5",
         "files": [{"cxx": XS.DATASET_ITEM, "out": "ds.c", "header": True}, "harness_item.c"],
         "incdirs": INC, "defines": ['RXV_CONTRACTS_H="contracts_item.h"'],
         "entry": "h_item", "enforce": "initDatasetItem",
